@@ -22,7 +22,7 @@ import (
 
 func controlWrap(file []byte, present bool) string {
 	dir := tmpDir()
-	defer os.RemoveAll(dir)
+	defer release(dir)
 	if present {
 		put(dir, "global/pg_control", file)
 	} else {
@@ -67,7 +67,7 @@ func relmapEq(w *pgdump.RelMapFile, werr error, p *pgdump.RelMapFile, perr error
 
 func relmapWrap(file []byte, present bool, dbOID uint32, dbF []byte) string {
 	dir := tmpDir()
-	defer os.RemoveAll(dir)
+	defer release(dir)
 	gp := filepath.Join(dir, "global", "pg_filenode.map")
 	dp := filepath.Join(dir, "base", fmt.Sprint(dbOID), "pg_filenode.map")
 	os.MkdirAll(filepath.Dir(gp), 0o755)
@@ -123,7 +123,7 @@ func relmapWrap(file []byte, present bool, dbOID uint32, dbF []byte) string {
 
 func authWrap(file []byte, present bool) string {
 	dir := tmpDir()
-	defer os.RemoveAll(dir)
+	defer release(dir)
 	os.MkdirAll(filepath.Join(dir, "global"), 0o755)
 	if present {
 		put(dir, "global/1260", file)
@@ -158,11 +158,23 @@ func js(rs []pgdump.WALRecord) string {
 	return string(b)
 }
 
-func isWalName(n string) bool { return len(n) == 24 && !strings.HasSuffix(n, ".history") }
+// isWalName: a WAL segment file name is 24 upper-case hexadecimal digits (PostgreSQL's IsXLogFileName; the rule of
+// ScanWALDirectory / GetRecentWALRecords since fixes/wal/10)
+func isWalName(n string) bool {
+	if len(n) != 24 {
+		return false
+	}
+	for i := 0; i < len(n); i++ {
+		if c := n[i]; !(c >= '0' && c <= '9') && !(c >= 'A' && c <= 'F') {
+			return false
+		}
+	}
+	return true
+}
 
 func walWrap(limit int, pairs []string) string {
 	dir := tmpDir()
-	defer os.RemoveAll(dir)
+	defer release(dir)
 	os.MkdirAll(filepath.Join(dir, "pg_wal"), 0o755)
 	files := map[string][]byte{}
 	var names []string
@@ -231,7 +243,7 @@ func walWrap(limit int, pairs []string) string {
 
 func toastWrap(relid uint32, file, ptrs []byte) string {
 	dir := tmpDir()
-	defer os.RemoveAll(dir)
+	defer release(dir)
 	put(dir, fmt.Sprintf("base/5/%d", relid), file)
 	var d diffs
 	chunks := pgdump.ReadTOASTTable(file)
@@ -270,7 +282,7 @@ func toastWrap(relid uint32, file, ptrs []byte) string {
 
 func cksumWrap(name string, file []byte, ctl []byte, hasCtl bool) string {
 	dir := tmpDir()
-	defer os.RemoveAll(dir)
+	defer release(dir)
 	put(dir, "base/5/"+name, file)
 	put(dir, "base/notanoid/"+name, file)
 	put(dir, "base/5/sub/"+name, file)
@@ -290,6 +302,12 @@ func cksumWrap(name string, file []byte, ctl []byte, hasCtl bool) string {
 		s, e := strconv.ParseUint(name[dot+1:], 10, 32)
 		rel = e == nil
 		base, seg = name[:dot], s
+	}
+	for _, fork := range []string{"_fsm", "_vm", "_init"} { // every fork of a relation is verified (fixes/block/08)
+		if strings.HasSuffix(base, fork) {
+			base = strings.TrimSuffix(base, fork)
+			break
+		}
 	}
 	if _, e := strconv.ParseUint(base, 10, 32); e != nil {
 		rel = false
@@ -321,7 +339,7 @@ func cksumWrap(name string, file []byte, ctl []byte, hasCtl bool) string {
 
 func segWrap(name string, file []byte, segSize, segNum int, hasOpts bool) string {
 	dir := tmpDir()
-	defer os.RemoveAll(dir)
+	defer release(dir)
 	p := put(dir, name, file)
 	var opts *pgdump.SegmentOptions
 	if hasOpts {
@@ -363,7 +381,7 @@ func segWrap(name string, file []byte, segSize, segNum int, hasOpts bool) string
 // through every dataDir-taking entry point; each is compared with the composition of byte-level parsers it stands for
 func dirWrap(ver int, heavy bool, files []string) string {
 	dir := tmpDir()
-	defer os.RemoveAll(dir)
+	defer release(dir)
 	wrote := 0
 	seen := map[string]bool{}
 	for _, a := range files {
@@ -430,8 +448,10 @@ func dirWrap(ver int, heavy bool, files []string) string {
 		if got != nil {
 			d.check("DumpDataDir", sh(*got) == sh(*want))
 		}
+		// ScanAllDeletedRows (fixes/rows/07): the databases, tables and columns of the dump; per table the deleted rows
+		// instead of the live ones (which rows: family scandeleted of area delscan compares them with the Spec)
 		del, derr := pgdump.ScanAllDeletedRows(dir, o)
-		d.check("ScanAllDeletedRows", derr == nil && del != nil && got != nil && sh(*del) == sh(*got))
+		d.check("ScanAllDeletedRows", derr == nil && del != nil && got != nil && sh(dumpSkeleton(del)) == sh(dumpSkeleton(got)) && rowCountsOK(del))
 	}
 	// ListDatabases = ParsePGDatabase sorted by name, templates last
 	want := append([]pgdump.DatabaseInfo(nil), dbs...)
@@ -599,7 +619,7 @@ func detectChecks(d *diffs, dir string, valid bool) {
 func init() {
 	// the 1-in-16 directory cases that run the secret scanner build two fresh trufflehog scanners: allow for a loaded machine
 	core.SetEnvelope("filewrap", 512, 64<<20, 30000)
-	core.Register("filewrap", func(args []string) string {
+	core.Register("filewrap", checkedFiles(func(args []string) string {
 		switch args[0] {
 		case "control":
 			f, ok := optBytes(args[1])
@@ -624,5 +644,30 @@ func init() {
 			return dirWrap(atoi(args[1]), args[2] == "1", args[3:])
 		}
 		return "bad-args"
-	})
+	}))
+}
+
+// dumpSkeleton is the dump without its rows: databases, tables (oid, name, filenode, kind) and columns
+func dumpSkeleton(r *pgdump.DumpResult) pgdump.DumpResult {
+	out := pgdump.DumpResult{}
+	for _, db := range r.Databases {
+		d := pgdump.DatabaseDump{OID: db.OID, Name: db.Name}
+		for _, t := range db.Tables {
+			t.Rows, t.RowCount = nil, 0
+			d.Tables = append(d.Tables, t)
+		}
+		out.Databases = append(out.Databases, d)
+	}
+	return out
+}
+
+func rowCountsOK(r *pgdump.DumpResult) bool {
+	for _, db := range r.Databases {
+		for _, t := range db.Tables {
+			if t.RowCount != len(t.Rows) {
+				return false
+			}
+		}
+	}
+	return true
 }
